@@ -211,6 +211,8 @@ def run_for(ex, st):
                 ex.env[nm] = havoc(ex, cur, nm)
             ex.poisoned.discard(nm)
     i = fresh('i', vl.Int)
+    ex.eng.nonneg.add(i.get_id())
+    ex.eng._nonneg_keep.append(i)
     ex.assume(z3.And(i >= 0, i <= n))
     ex.ghost['_i'] = V(VInt(i))
     ex.ghost[iname] = ex.ghost['_i']
@@ -220,9 +222,21 @@ def run_for(ex, st):
     if ex.branch(i < n):
         # quantified facts about the elements of a sequence (forall_idx) are instantiated at the
         # current index: sound, and it saves the solvers the search for the instance
+        flat = []
         for p in list(ex.pc):
+            flat.extend(p.children() if z3.is_and(p) else [p])
+        from . import solve
+        for p in flat:
             if z3.is_quantifier(p) and p.is_forall() and p.num_vars() == 1 and p.var_sort(0) == vl.Int:
-                ex.pc.append(z3.substitute_vars(p.body(), i))
+                inst = z3.substitute_vars(p.body(), i)
+                # guard => C with a guard that holds at this index: C itself (so that a specification
+                # predicate in C is unfolded by assume)
+                if z3.is_implies(inst) and not solve.feasible_forked(list(ex.pc) + [z3.Not(inst.arg(0))], 300):
+                    ex.assume(inst.arg(1))
+                else:
+                    ex.assume(inst)
+        ex.iter_envs = dict(getattr(ex, 'iter_envs', {}))
+        ex.iter_envs[ord_] = dict(ex.env)
         ex.bind_target(st.target, it.elem(i), st)
         from . import mutate
         mutate.record_roots(ex, st.target, st.iter)
